@@ -17,6 +17,9 @@ structure SEntry where
   /-- `deadline_remainder` (ns): how much of the time until the deadline the timer has not been armed
   with yet; nonzero only for deadlines further away than the clamp -/
   remainder : Nat := 0
+  /-- `timer_due` (ns): when the armed timer is due, exactly (`now + timeout` at the time it was armed; the
+  queue itself rounds up to the millisecond) -/
+  dueAt : Nat := 0
 deriving Repr, DecidableEq
 
 inductive EPhase where
@@ -172,12 +175,15 @@ inductive ExpRes where
   | ready | closed | pending
 deriving Repr, DecidableEq
 
-/-- `poll_expired` finds that the timer that fired was armed with a clamped timeout and that, `late` ns
-after it was due, some of the time until the deadline is still left: it arms a new timer with (the next
-clamped part of) the rest, records its key and what is then still left; `none` = the
-`DelayQueue::insert` panicked. -/
-def rearm (s : St) (now late : Nat) (en : SEntry) : Option St :=
-  match s.timers.insert now (clampTimeout (en.remainder - late)) en.id with
+/-- What is left of `deadline_remainder` once the lateness of the poll — measured from the exact time the
+timer was due — is taken off. -/
+def restOf (now : Nat) (x : SEntry) : Nat := x.remainder - (now - x.dueAt)
+
+/-- `poll_expired` finds that the timer that fired was armed with a clamped timeout and that some of the time
+until the deadline is still left (`restOf`): it arms a new timer with (the next clamped part of) the rest,
+records its key, when it is due and what is then still left; `none` = the `DelayQueue::insert` panicked. -/
+def rearm (s : St) (now : Nat) (en : SEntry) : Option St :=
+  match s.timers.insert now (clampTimeout (restOf now en)) en.id with
   | (_, .panic, _) => none
   | (q, .ok key, woke) =>
       let s := if woke then wakeServer s else s
@@ -185,20 +191,19 @@ def rearm (s : St) (now late : Nat) (en : SEntry) : Option St :=
                     inflight := s.inflight.map (fun x =>
                       if x.id == en.id then
                         { x with timerKey := key,
-                                 remainder := (x.remainder - late) - clampTimeout (x.remainder - late) }
+                                 dueAt := now + clampTimeout (restOf now x),
+                                 remainder := restOf now x - clampTimeout (restOf now x) }
                       else x) }
 
-/-- One iteration of the loop of `poll_expired`; `none` = `continue` (a timer was re-armed).
-`late`: how long ago the timer that fired was due (`expired.deadline()` is the queue's own tick). -/
+/-- One iteration of the loop of `poll_expired`; `none` = `continue` (a timer was re-armed). -/
 def expireStep (s : St) (now : Nat) : St × Option ExpRes :=
   match s.timers.pollExpired now with
   | (q, .expired e) =>
       let s1 := { s with timers := q }
       match findEntry s1 e.val with
       | some en =>
-          let late := now - e.whenMs * nsPerMs
-          if en.remainder - late != 0 then
-            match rearm s1 now late en with
+          if restOf now en != 0 then
+            match rearm s1 now en with
             | some s2 => (s2, none)
             -- the task panicked: nothing runs on this state any more (it is left as before the poll)
             | none => (emit { s with poisoned := true } (.panic (tid s) "DelayQueue::insert: invalid deadline"), some .closed)
@@ -238,7 +243,8 @@ def startRequest (s : St) (now : Nat) (id deadline : Nat) (trace : Trace) (body 
         let e : Exec := { rid := rid, id := id, deadline := deadline, trace := tr, body := body, guardArmed := false }
         ({ s with timers := q, nextFresh := s.nextFresh + 1,
                   inflight := s.inflight ++ [{ id := id, timerKey := key, rid := rid,
-                                               remainder := (deadline - now) - clampTimeout (deadline - now) }],
+                                               remainder := (deadline - now) - clampTimeout (deadline - now),
+                                               dueAt := now + clampTimeout (deadline - now) }],
                   execs := s.execs ++ [e] }, some e)
 
 /-! ### `BaseChannel::poll_next` -/
